@@ -89,7 +89,8 @@ def c17(eng, tier, res):
     shared = {"mutex.locked": z3.BoolVal(False), "cs": bv(0, 4)}
     plans = [("mutex 2 threads, 1 section each", [1, 1], 14), ("mutex 2 threads, sections 2+1 (second unlock while a waiter spins)", [2, 1], 17)]
     if tier == "thorough":
-        plans += [("mutex 3 threads, 1 section each", [1, 1, 1], 19), ("mutex 2 threads, sections 2+2", [2, 2], 20)]
+        plans += [("mutex 3 threads, 1 section each", [1, 1, 1], 22), ("mutex 2 threads, sections 2+2", [2, 2], 24),
+                  ("mutex 3 threads, sections 2+1+1", [2, 1, 1], 24), ("mutex 2 threads, sections 3+1", [3, 1], 24)]
     for (name, rounds, K) in plans:
         sc = Scenario(name, mutex_threads(rounds), shared, nonatomic=["data"], K=K)
         t0 = time.time()
@@ -130,7 +131,7 @@ def sig_obj(variant):
 def signal_scenarios(eng, tier, res, which=("recv_waiter", "send_waiter", "terminated", "timed", "async_drop")):
     base_shared = {"sig.state": bv(LOCKED, 8), "sig.waker": bv(255, 8), "sig.awaker": bv(7, 8), "pub": z3.BoolVal(False), "woken": z3.BoolVal(False)}
     na = ["slot", "sig.waker", "sig.awaker", "sigframe"]
-    K = 16 if tier == "quick" else 22
+    K = 16 if tier == "quick" else 26
     S = []
     sync = sig_obj("Sync")
     asy = sig_obj("Async")
